@@ -95,6 +95,8 @@ def run(R):
                         key=f"pkrange|{N}", data={"example": bad[:3]})
     obls = S.obligations_since(0)
     clause_reserved(R)
+    from . import c05
+    c05.clause_field_codec(R, rule="C06-field")
     R.analysed["abstract_runs"] = nruns
     R.analysed["obligations_seen"] = len(obls)
     R.analysed["unsupported"] = S.unsupported[:10]
